@@ -65,4 +65,8 @@ class StochasticFiniteStateController(POMDPPolicy):
     def next_agentstate(self, ag : AgentState, a : Action, o : Observation) -> AgentState:
         oi = self.pomdp.observation_index[o]
         ai = self.pomdp.action_list.index(a)
+        # The agent state is a distribution over controller nodes. The action that was
+        # sampled from it is evidence about the node, so condition on it before stepping.
+        ag = ag * self.action_strategy[:, ai]
+        ag = ag / ag.sum()
         return ag @ self.observation_strategy[:, ai, oi]
